@@ -1,4 +1,86 @@
-import ZtypV.Spec
+/-
+C06  Cached Merkle roots are never stale.
+
+Model H (`ZtypV/Model/Heap.lean`): a pair cell carries the memo field `Value` of the Go
+`PairNode`; `rootH` is `PairNode.MerkleRoot` (memo test, recursion, memo write in place).
+A client is an arbitrary program `Prog` over the primitives of package `tree`; the view layer
+is one such client (that it uses no other write is the regenerated write-site inventory).
+-/
+import ZtypV.Proofs.Heap
 namespace ZtypV.Props.C06
-theorem placeholder : True := trivial
+open ZtypV ZtypV.H
+
+/-- The invariant "every remembered root equals the root recomputed from the node's current
+    children" survives every client program, i.e. any interleaving of allocations (mutations
+    build new nodes), reads and hash-tree-root requests. -/
+theorem C06_inv (h : HashFn) {p : Prog α} {hp : Heap} (hw : WF hp) (hm : MemoValid h hp)
+    (hnp : NoPoke p) : MemoValid h (run h p hp).2.1 :=
+  run_memoValid h hnp hp hw hm
+
+example : MemoValid exHash (run exHash exClient exHeap3).2.1 :=
+  C06_inv exHash (wfB_sound (by decide)) (memoValidB_sound (by decide)) noPoke_exClient
+
+/-- Whatever the memo state (nothing, something or everything below `x` cached), `MerkleRoot`
+    returns the root of the memo-free tree. -/
+theorem C06_root_correct (h : HashFn) {hp : Heap} (hw : WF hp) (hm : MemoValid h hp) {x : Nat}
+    (hx : x < hp.size) : (run h (Prog.root1 x) hp).1 = some ((absNode hp x).root h) := by
+  unfold Prog.root1
+  rw [run_root_ok h _ hx, (rootH_correct h (x+1) hp x hw hm (by omega)).1]
+  rfl
+
+example : (run exHash (Prog.root1 4) exHeap3).1 = some ((absNode exHeap3 4).root exHash) :=
+  C06_root_correct exHash (wfB_sound (by decide)) (memoValidB_sound (by decide)) (by decide)
+
+/-- the same root is obtained from the unhashed, the partly hashed and the fully hashed heap -/
+example : (run exHash (Prog.root1 4) exHeap).1 = (run exHash (Prog.root1 4) exHeap3).1
+    ∧ (run exHash (Prog.root1 4) exHeap3).1 = (run exHash (Prog.root1 4) exHeapAll).1 := by decide
+
+/-- An extra hash-tree-root request in front of an arbitrary client changes none of its results,
+    and the final heaps differ in memo fields only (so no later observation differs either). -/
+theorem C06_independent_front (h : HashFn) {p : Prog α} {hp : Heap} (hw : WF hp)
+    (hm : MemoValid h hp) (hnp : NoPoke p) {x : Nat} (hx : x < hp.size) :
+    (run h (.root x (fun _ => p)) hp).1 = (run h p hp).1
+      ∧ SameStruct (run h (.root x (fun _ => p)) hp).2.1 (run h p hp).2.1 := by
+  have := run_rootEdit h (RootEdit.ins hp.size x p p hx (RootEdit.refl hnp hp.size)) hp hp rfl hw hw
+    (SameStruct.refl hp) hm hm
+  exact ⟨this.1.symm, this.2.symm⟩
+
+example : (run exHash (.root 2 (fun _ => exClient)) exHeap).1 = (run exHash exClient exHeap).1 :=
+  (C06_independent_front exHash (wfB_sound (by decide)) (memoValidB_sound (by decide))
+    noPoke_exClient (by decide)).1
+
+/-- Inserting and deleting hash-tree-root requests (on existing nodes, results ignored) anywhere
+    in a client — `RootEdit` — and starting from heaps that differ in which roots were requested
+    earlier (`SameStruct`, both valid) changes no result of the client; the final heaps again differ
+    in memo fields only and are again valid. -/
+theorem C06_independent (h : HashFn) {p p' : Prog α} {hp hp' : Heap}
+    (he : RootEdit hp.size p p') (hw : WF hp) (hw' : WF hp') (hs : SameStruct hp hp')
+    (hm : MemoValid h hp) (hm' : MemoValid h hp') :
+    (run h p hp).1 = (run h p' hp').1 ∧ SameStruct (run h p hp).2.1 (run h p' hp').2.1 :=
+  run_rootEdit h he hp hp' rfl hw hw' hs hm hm'
+
+/-- non-vacuity: requests inserted in front and in the middle, started from a differently hashed heap -/
+example : (run exHash exClient exHeap).1 =
+    (run exHash (.root 3 (fun _ => .read 4 (fun c => .root 2 (fun _ => match c with
+      | some (.inr (l, _)) => .allocLeaf (chunkOf [9]) (fun a => .allocPair l a (fun b => .root b .ret))
+      | _ => .ret z0)))) exHeap3).1 := by
+  refine (C06_independent exHash ?_ (wfB_sound (by decide)) (wfB_sound (by decide))
+    (rootH_sameStruct exHash 4 exHeap 3) (memoValidB_sound (by decide))
+    (memoValidB_sound (by decide))).1
+  refine .ins _ _ _ _ (by decide) (.read _ _ _ _ (fun c => .ins _ _ _ _ (by decide) ?_))
+  apply RootEdit.refl
+  cases c with
+  | none => exact .ret _
+  | some v =>
+    cases v with
+    | inl _ => exact .ret _
+    | inr lr =>
+      exact .allocLeaf _ _ (fun a => .allocPair _ _ _ (fun b => .root _ _ (fun v => .ret v)))
+
+/-- hash-tree-root of a node does not depend on which earlier roots were requested -/
+theorem C06_root_memo_independent (h : HashFn) {hp hp' : Heap} (hw : WF hp) (hw' : WF hp')
+    (hs : SameStruct hp hp') (hm : MemoValid h hp) (hm' : MemoValid h hp') (x : Nat) :
+    (run h (Prog.root1 x) hp).1 = (run h (Prog.root1 x) hp').1 :=
+  (run_rootEdit h (RootEdit.refl (.root x _ (fun v => .ret v)) hp.size) hp hp' rfl hw hw' hs hm hm').1
+
 end ZtypV.Props.C06
